@@ -95,6 +95,12 @@ CHECKS.update({
                 design="4/C17, 2.9", note=BASE_NOTE + " Integer reads only on integral values; printing of missing cells is outside the round trip."),
 })
 
+CHECKS.update({
+    "C18": dict(engine="netcdfio", technique="TLC: NetcdfIO.tla Read/Written definitions with ShapeKept, DefaultIsFloat, MissingMasked, FuzzyInRange, PositiveChecked, RoundTripUnionMask over all small grids and option combinations; datasets made with netCDF4, real EEMSRead/EEMSWrite observations validated by TLC (NetcdfIOTrace.tla)",
+                text="TLC enumerates grids (1-D, 2x2, 1x3; float/integer; every placement of missing cells; values negative, fractional, inside and beyond the fuzzy padding) with every DataType and MissingValue choice, and every pair of results written together; the laws are checked on the definitions; each case is materialised with netCDF4 (coordinate variables, optional CRS variable), read by the real EEMSRead or written by the real EEMSWrite on a template and read back, the dimension variables and coordinates compared with the template; TLC validates shape, element kind, values, mask (union of all written results' masks), option errors.",
+                design="4/C18, 2.9", note=BASE_NOTE + " MissingValue is not combined with the Positive/Fuzzy checks or with rounding; rounding ties are not generated."),
+})
+
 NOT_YET = "check not built yet (build in progress; see DESIGN.md section 4b build order)"
 
 
@@ -140,6 +146,7 @@ def main():
             {"name": "registry", "path": "harness/registry.py", "serves_properties": ["C19"], "kind_free_text": "TLC (spec/MPRegistry.tla, MPRegistryTrace.tla) + forked replay children"},
             {"name": "heap", "path": "harness/heap.py", "serves_properties": ["C09"], "kind_free_text": "TLC (spec/MPHeap.tla, MPHeapTrace.tla) + digest histories over the real commands"},
             {"name": "csvio", "path": "harness/csvio.py", "serves_properties": ["C17"], "kind_free_text": "TLC (spec/CsvIO.tla, CsvIOTrace.tla) + file fixtures and the real CSV reader/writer"},
+            {"name": "netcdfio", "path": "harness/netcdfio.py", "serves_properties": ["C18"], "kind_free_text": "TLC (spec/NetcdfIO.tla, NetcdfIOTrace.tla) + netCDF4 fixtures and the real NetCDF reader/writer"},
             {"name": "validate", "path": "harness/validate.py", "serves_properties": ["C12", "C13"],
              "kind_free_text": "TLC (spec/MPValidateDefs.tla, MPValidate.tla, MPValidateTrace.tla, MPCli.tla, MPCliTrace.tla; MC_Decl generated by harness/decl.py) + renderer/runner"},
         ],
